@@ -490,58 +490,72 @@ def replay_proj(run, rec, scs, rng):
 def crossing_patches(s, pats, xlim, ylim, exact=True, used_out=None):
     """the patches of a polygon through the line at infinity (spec: DrawProj, CrossInfo): one closed polygon per run of
     vertices: the run in order, then two dummy vertices, each on the ray continuing the crossing edge beyond the run's end
-    vertex away from the vertex on the other side, outside the window.  Returns None or a description."""
+    vertex away from the vertex on the other side, outside the window.  Returns None or a description.
+    Several patches may contain the vertices of a run (other polygons of an array can share chart points): every
+    candidate is examined and the run is satisfied by any one that passes."""
     aff = np.array([dc.rat2(c) for c in s["aff"]])
-    runs = s["cross"]["runs"]
     free = list(range(len(pats)))
-    for r in runs:
-        idx = [i - 1 for i in r["verts"]]
+
+    def examine(v, r, idx):
         k = len(idx)
-        found = None
-        for j in free:
-            v = np.asarray(pats[j], float)
-            if len(v) >= 2 and np.abs(v[0] - v[-1]).max() <= 1e-12:
-                v = v[:-1]                                   # matplotlib repeats the first vertex of a closed polygon
-            if len(v) != k + 2:
-                continue
-            name = []
-            for pt in v:
-                dd = np.abs(aff[idx] - pt).max(axis=1)
-                i = int(np.argmin(dd))
-                name.append(i if dd[i] <= 1e-9 * max(1.0, float(np.abs(pt).max())) else -1)
-            if sorted(x for x in name if x >= 0) != list(range(k)) or name.count(-1) != 2:
-                continue
-            found = (j, v, name)
-            break
-        if found is None:
-            return "no patch consists of the run %r (chart points %r) and two more vertices; patches: %r" % (
-                r["verts"], aff[idx].round(6).tolist(), [np.round(np.asarray(q, float), 4).tolist() for q in pats])
-        j, v, name = found
-        free.remove(j)
+        name = []
+        for pt in v:
+            dd = np.abs(aff[idx] - pt).max(axis=1)
+            i = int(np.argmin(dd))
+            name.append(i if dd[i] <= 1e-9 * max(1.0, float(np.abs(pt).max())) else -1)
+        if sorted(x for x in name if x >= 0) != list(range(k)) or name.count(-1) != 2:
+            return "not a candidate"
         m = len(v)
-        # rotate so that the two dummies come last
         st = [t for t in range(m) if name[t] == -1 and name[(t + 1) % m] == -1]
         if not st:
             return "the two extra vertices of the patch of the run %r are not consecutive: %r" % (r["verts"], np.round(v, 4).tolist())
         rot = [(st[0] + 2 + t) % m for t in range(m)]
         seq = [name[t] for t in rot[:k]]
         d_after_last, d_before_first = v[rot[k]], v[rot[k + 1]]      # neighbours of seq[-1] and of seq[0]
-        if seq == list(range(k)):
-            ends = [(idx[-1], r["after"] - 1, d_after_last), (idx[0], r["before"] - 1, d_before_first)]
-        elif seq == list(range(k))[::-1]:
-            ends = [(idx[0], r["before"] - 1, d_after_last), (idx[-1], r["after"] - 1, d_before_first)]
-        else:
+        fwd = [(idx[-1], r["after"] - 1, d_after_last), (idx[0], r["before"] - 1, d_before_first)]
+        bwd = [(idx[0], r["before"] - 1, d_after_last), (idx[-1], r["after"] - 1, d_before_first)]
+        options = ([fwd] if seq == list(range(k)) else []) + ([bwd] if seq == list(range(k))[::-1] else [])    # k = 1: both
+        if not options:
             return "the patch of the run %r does not list its vertices in order: %r" % (r["verts"], np.round(v, 4).tolist())
-        for e, f, dm in ends:
-            a, b = aff[e], aff[f]
-            u = (a - b) / np.linalg.norm(a - b)
-            off = abs((dm - a) @ np.array([-u[1], u[0]]))
-            along = float((dm - a) @ u)
-            if off > 1e-9 * max(1.0, float(np.abs(dm).max())) or along <= 0:
-                return ("dummy vertex %r next to vertex %d (%r) is not on the ray continuing the crossing edge from vertex %d (%r) beyond it" % (
-                    np.round(dm, 4).tolist(), e + 1, a.round(4).tolist(), f + 1, b.round(4).tolist()))
-            if xlim[0] < dm[0] < xlim[1] and ylim[0] < dm[1] < ylim[1]:
-                return "dummy vertex %r next to vertex %d lies inside the window: the unbounded piece is cut off" % (np.round(dm, 4).tolist(), e + 1)
+        msg = None
+        for ends in options:
+            msg = None
+            for e, f, dm in ends:
+                a, b = aff[e], aff[f]
+                u = (a - b) / np.linalg.norm(a - b)
+                off = abs((dm - a) @ np.array([-u[1], u[0]]))
+                along = float((dm - a) @ u)
+                if off > 1e-9 * max(1.0, float(np.abs(dm).max())) or along <= 0:
+                    msg = ("dummy vertex %r next to vertex %d (%r) is not on the ray continuing the crossing edge from vertex %d (%r) beyond it" % (
+                        np.round(dm, 4).tolist(), e + 1, a.round(4).tolist(), f + 1, b.round(4).tolist()))
+                    break
+                if xlim[0] < dm[0] < xlim[1] and ylim[0] < dm[1] < ylim[1]:
+                    msg = "dummy vertex %r next to vertex %d lies inside the window: the unbounded piece is cut off" % (np.round(dm, 4).tolist(), e + 1)
+                    break
+            if msg is None:
+                return None
+        return msg
+
+    for r in s["cross"]["runs"]:
+        idx = [i - 1 for i in r["verts"]]
+        k = len(idx)
+        ok, msgs = None, []
+        for j in free:
+            v = np.asarray(pats[j], float)
+            if len(v) >= 2 and np.abs(v[0] - v[-1]).max() <= 1e-12:
+                v = v[:-1]                                   # matplotlib repeats the first vertex of a closed polygon
+            if len(v) != k + 2:
+                continue
+            res = examine(v, r, idx)
+            if res is None:
+                ok = j
+                break
+            if res != "not a candidate":
+                msgs.append(res)
+        if ok is None:
+            return msgs[0] if msgs else "no patch consists of the run %r (chart points %r) and two more vertices; patches: %r" % (
+                r["verts"], aff[idx].round(6).tolist(), [np.round(np.asarray(pats[j], float), 4).tolist() for j in free])
+        free.remove(ok)
     if used_out is not None:
         used_out.extend(j for j in range(len(pats)) if j not in free)
     if free and exact:
